@@ -441,6 +441,31 @@ pub fn assemble_v1(spec: &V1Spec) -> Wire {
 
 /// A v1 header. Half of the TCP lines come from the real `Display` encoder.
 pub fn gen_v1(rng: &mut Rng, ascii_only: bool) -> Wire {
+    if rng.chance(1, 40) {
+        // TCP lines at the top of the length range: a 45-character IPv6 spelling (dotted-quad
+        // tail) next to a 38/39-character one gives lines of 104..107 bytes
+        let long = "ffff:ffff:ffff:ffff:ffff:ffff:255.255.255.255".to_string();
+        let other = *rng.pick(&[
+            "ffff:ffff:ffff:ffff:ffff:ffff:ffff:ffff",
+            "ffff:ffff:ffff:ffff:ffff:ffff:ffff:fff",
+            "fff:ffff:ffff:ffff:ffff:ffff:ffff:fff",
+        ]);
+        let (a, b) = if rng.chance(1, 2) {
+            (long, other.to_string())
+        } else {
+            (other.to_string(), long)
+        };
+        let sp = *rng.pick(&["1", "10", "65535"]);
+        let dp = *rng.pick(&["9", "443", "9999", "65535"]);
+        return assemble_v1(&V1Spec {
+            proto: V1Proto::Tcp6,
+            src: a,
+            dst: b,
+            sport: sp.to_string(),
+            dport: dp.to_string(),
+            free: None,
+        });
+    }
     if rng.chance(1, 3) {
         // the real encoder
         let a = match rng.below(5) {
